@@ -7,11 +7,15 @@
    up its pending text; the unterminated comment / string hangs were exactly a
    violation of this table fact) — and Next keeps the lexer well formed, so the
    claim holds for every call of a scan; error spans lie inside the input.
-   NOT proved: termination and abort-freedom of the parser over the grammar
-   (open: it needs the grammar model; Go's goroutine stack limit K3 is a
-   recorded finding).  The check decides that part on arbitrary byte strings
-   run through parser.Parse and reportError with a time limit. *)
-Require Import Calc.Base Calc.Lexer Calc.LexerProofs.
+   Proved about the grammar model (Grammar.v, compared with parser.Parse on
+   every run of C07 and C06): on every input it returns trees or rejects, it
+   never exhausts the fuel it is given (8 * tokens + 16), because every
+   successful parse of an expression, statement or block consumes a token.
+   The model has no panics by construction (its only failure values are
+   "rejected" and "out of fuel"); that the Go combinators do not panic on the
+   grammar's own combinator expressions is what the run checks.  Go's
+   goroutine stack limit K3 is a recorded finding. *)
+Require Import Calc.Base Calc.Lexer Calc.LexerProofs Calc.Grammar Calc.ParserTotal.
 Open Scope Z_scope.
 
 Theorem C06_lexer_next_terminates : forall l, lexer_wf l -> lexer_next l <> NFuel.
@@ -45,3 +49,17 @@ Proof.
     repeat match goal with |- context [if ?x then _ else _] => destruct x end; discriminate.
 Qed.
 Print Assumptions C06_only_eof_state_can_abort.
+
+(* ---- the parser ---- *)
+Theorem C06_parser_total : forall input, parse_model input <> PFuel.
+Proof. exact parse_model_total. Qed.
+Print Assumptions C06_parser_total.
+
+Theorem C06_program_never_out_of_fuel : forall ts, p_program (parse_fuel ts) ts <> Out.
+Proof. exact program_never_out_of_fuel. Qed.
+Print Assumptions C06_program_never_out_of_fuel.
+
+Theorem C06_successful_parse_consumes_a_token : forall fuel,
+  shrinks (p_expr fuel) /\ shrinks (p_stmt fuel) /\ shrinks (p_block fuel).
+Proof. exact consumed_tokens_shrink. Qed.
+Print Assumptions C06_successful_parse_consumes_a_token.
